@@ -8,6 +8,17 @@ PY = '/venv/bin/python'
 
 # property -> (category, level text, level note, technique, design ref)
 CLAIMED = {
+    'C09': ('other',
+            'Repository-specific ownership analysis of every copy method (Entity, Solid, Side incl. the DispVertex it rebuilds, Output, VisGroup, '
+            'EntityGroup, Camera, Cordon, UVAxis, Keyvalues, EntityFixup): the constructor call of the copy is mapped parameter-by-parameter onto '
+            'the fields __init__ / the attrs field list stores them in (including whether __init__ or a converter copies the argument), and each '
+            'field must (P1) be fed from the same field of the source and (P2) if its declared type is mutable, through a copying expression; '
+            'method calls on a field are summarised from the callee (copy_values -> shares FixupValue). P3: non in-place operators contain no '
+            'construct mutating an operand. These are facts about the code shape on every path; export equality of the copy is not claimed.',
+            'Trusted: CPython ast, the field/type model (slots, attrs fields, annotations, __init__ parameter annotations), the enumerated list of '
+            'copying expressions. Unknown expression shapes end the run with exit 2.',
+            'static: field-flow / ownership analysis of copy constructors + operator effect analysis',
+            'DESIGN.md section 3, C09'),
     'C08': ('other',
             'Repository-specific static rules: the allocator only returns values it reserved on that path and tested free (caller-supplied ids only when '
             'positive), search_pos discipline; the used-id set is private to the managers and object ids are assigned only from get_id in constructors '
